@@ -209,17 +209,18 @@ def find_item(path, selector):
                 continue
             header = _impl_header(toks, kwi, bo)
             tr, tyname, tyfull = _impl_names(header)
+            def _norm(x):
+                x = re.sub(r"<.*$", "", x)
+                x = re.sub(r"'\w+\s*", "", x)
+                return re.sub(r"\s+", " ", x).strip()
             if "&" in ty:
-                if re.sub(r"\s+", " ", ty) not in re.sub(r"<.*$", "", tyfull) + " ":
-                    if not tyfull.startswith(ty):
-                        continue
-                tyq = ty.replace("&mut ", "").replace("&", "").strip()
+                if _norm(tyfull) != _norm(ty):
+                    continue
             else:
                 if tyfull.startswith("&"):
                     continue
-                tyq = ty
-            if tyname != tyq:
-                continue
+                if tyname != ty:
+                    continue
             if trait is not None and tr != trait:
                 continue
             if trait is None and tr is not None and False:
